@@ -4,30 +4,10 @@ import LivesimVerif.Props.C02
 
 Edge monotonicity / uniqueness are theorems about the characterisation `E k ≤ τ < E (k+1)` of the listed edge
 (`edgeIdx_spec`, C02) and hold for every table, loop count and pair of instants.  The clause "same publishTime ⇒ same
-content" is **not** provable for the code as it is: the first entry leaves the window at other instants than the last
-one enters (known finding F-C05-1); `c05_pt_le_now` and `c05_edge_unique` are what holds.
+content" did not hold for the code of the previous round (the first entry leaves the window at other instants than the last
+one enters, F-C05-1); after the repair it is `c05_publish_identifies` below.
 -/
 namespace Core
-
-theorem E_succ (a : Asset) (r : Rep) (h : Contig r) (hc : Closes a r) (k : Nat) :
-    E a r (k + 1) = E a r k + segDur r (k + 1) := by
-  rw [E_eq_S_add a r h (k+1), c01_gap_free a r h hc k]
-
-theorem segDur_pos (r : Rep) (h : Contig r) (k : Nat) : 0 < segDur r k := by
-  unfold segDur
-  have := h.2.1 (k % r.N) (Nat.mod_lt _ h.1)
-  omega
-
-theorem E_strictMono (a : Asset) (r : Rep) (h : Contig r) (hc : Closes a r) (k k' : Nat) (hk : k < k') :
-    E a r k < E a r k' := by
-  induction k' with
-  | zero => omega
-  | succ n ih =>
-    have hs := E_succ a r h hc n
-    have hp := segDur_pos r h (n + 1)
-    by_cases he : k = n
-    · subst he; omega
-    · have := ih (by omega); omega
 
 /-- **The listed edge is determined by the instant** (it is *the* newest ended segment): two indices that both
 satisfy `E k ≤ τ < E (k+1)` are equal.  Hence the edge is `k` exactly while `avail k ≤ now < avail (k+1)`: it
